@@ -103,6 +103,10 @@ struct OkRep
   void operator()(char const* msg) const { H::emit("K %c %s", tag, H::esc(msg ? msg : "<null>").c_str()); }
 };
 
+// the same reporters as plain functions (installed as function pointers)
+template <char TAG> static void rep_fn(trompeloeil::severity s, char const* file, unsigned long line, std::string const& msg) { Rep{TAG}(s, file, line, msg); }
+template <char TAG> static void ok_fn(char const* msg) { OkRep{TAG}(msg); }
+
 // ---- tracers -----------------------------------------------------------------------------
 struct HTracer : trompeloeil::tracer
 {
@@ -236,8 +240,26 @@ static void drain_tracers()
   for (auto& t : g_tracers) if (t.s) t.s->drain();
 }
 
-static void install(char tag, int arity, bool probe)
+static void install(char tag, int arity, bool probe, int form = 0)
 {
+  if (form == 1 && arity == 2 && (tag == 'A' || tag == 'B' || tag == 'C'))
+  {
+    // both reporters given as pointers to plain functions
+    using RF = void (*)(trompeloeil::severity, char const*, unsigned long, std::string const&);
+    using OF = void (*)(char const*);
+    RF rf = tag == 'A' ? &rep_fn<'A'> : tag == 'B' ? &rep_fn<'B'> : &rep_fn<'C'>;
+    OF of = tag == 'A' ? &ok_fn<'A'> : tag == 'B' ? &ok_fn<'B'> : &ok_fn<'C'>;
+    auto prev = trompeloeil::set_reporter(rf, of);
+    if (probe)
+    {
+      H::emit("P{");
+      try { prev.first(trompeloeil::severity::nonfatal, "probe", 0UL, "probe"); }
+      catch (trompeloeil::expectation_violation const&) { H::emit("P default"); }
+      prev.second("probe");
+      H::emit("P}");
+    }
+    return;
+  }
   if (arity == 1)
   {
     auto prev = trompeloeil::set_reporter(Rep{tag});
@@ -505,7 +527,7 @@ static void exec_op(std::vector<std::string> const& t, std::string const& line)
     if (r.s) r.s->drain();
     delete r.h; delete r.s;
   }
-  else if (op == "rep") { install(t.at(1)[0], I(2), true); }
+  else if (op == "rep") { install(t.at(1)[0], I(2), true, t.size() > 3 ? I(3) : 0); }
   else if (op == "setp")
   {
     // setp e key val : mutate the live Params of an expectation (seen by LR_ clauses only)
